@@ -23,7 +23,7 @@ def op_class(name):
     return n
 
 
-def run_poly(facts, rep):
+def run_poly(facts, rep, only=None):
     R = "R-FAMILY(poly)"
     rep.rule(R, "a _ps/_p wrapper in util::polysmallmod delegates to the same operation class one layout level down and "
              "advances its offset by the sliced width")
@@ -32,6 +32,8 @@ def run_poly(facts, rep):
     for name, p in sorted(fns.items()):
         m = re.search(r"_(ps|p)$", name)
         if not m:
+            continue
+        if only is not None and not any(name.startswith(o) for o in only):
             continue
         n += 1
         rep.fn(p)
@@ -53,27 +55,51 @@ def run_poly(facts, rep):
                           "operation than its name says" % (name, op_class(name), bad[0][0], op_class(bad[0][0])),
                           facts.loc(p, bad[0][1]))
             continue
-        # offset stride
+        # offset stride: the running offset is an induction variable advancing by exactly the width of the slices
+        # handed down (symbolic polynomials: `offset += d`, `offset = upper`, `offset = offset + d` are all accepted;
+        # `offset = d` is not), or the slices are `i*w .. (i+1)*w` of the loop variable
+        from r_slotmod import Sym, padd, patom, psubst, pshow
         stride_ok = True
         detail = ""
-        for x in walk(body):
-            if x.get("k") == "AssignOp" and x.get("op", "").startswith("+") and local_of(x["lhs"]):
-                off = local_of(x["lhs"])
-                widths = []
-                for y in walk(body):
-                    if y.get("k") == "Index":
-                        r = strip(y["i"])
-                        if r.get("k") == "Struct":
-                            d = {f["name"]: f["e"] for f in r["fields"]}
-                            st, en = d.get("start"), d.get("end")
-                            if st is not None and en is not None and local_of(st) and local_of(st)[0] == off[0]:
-                                e2 = strip(en)
-                                if e2.get("k") == "Bin" and e2["op"] == "+" and local_of(e2["a"]) and local_of(e2["a"])[0] == off[0]:
-                                    widths.append(e2["b"])
-                for w in widths:
-                    if not same_expr(strip(w), strip(x["rhs"])):
+        sym = Sym(facts, body)
+        for L in walk(body):
+            if L.get("k") not in ("For", "While", "Loop"):
+                continue
+            for y in walk(L["body"]):
+                if y.get("k") != "Index":
+                    continue
+                r = strip(y["i"])
+                if r.get("k") != "Struct" or not r.get("path", "").endswith("ops::Range"):
+                    continue
+                d = {f["name"]: f["e"] for f in r["fields"]}
+                st, en = sym.poly(d.get("start")), sym.poly(d.get("end"))
+                if not isinstance(st, dict) or not isinstance(en, dict):
+                    continue
+                width = padd(en, st, -1)
+                mut_atoms = [a for m in st for a in m if a not in sym.ranges and re.match(r".*#\d+$", a) and
+                             any(z.get("k") in ("Assign", "AssignOp") and local_of(z["lhs"]) and
+                                 "%s#%d" % (local_of(z["lhs"])[1], local_of(z["lhs"])[0]) == a for z in walk(L["body"]))]
+                for a in set(mut_atoms):
+                    for z in walk(L["body"]):
+                        if z.get("k") in ("Assign", "AssignOp") and local_of(z["lhs"]) and \
+                                "%s#%d" % (local_of(z["lhs"])[1], local_of(z["lhs"])[0]) == a:
+                            rhs = sym.poly(z["rhs"])
+                            if not isinstance(rhs, dict):
+                                continue
+                            new = rhs if z["k"] == "Assign" else (padd(patom(a), rhs) if z.get("op", "").startswith("+") else None)
+                            if new is None:
+                                continue
+                            if padd(new, padd(patom(a), width), -1):
+                                stride_ok = False
+                                detail = "the running offset `%s` becomes %s after a slice of width %s" % (
+                                    a.split("#")[0], pshow(new), pshow(width))
+                lv = [a for m in st for a in m if a in sym.ranges]
+                for a in set(lv):
+                    nxt = psubst(st, a, padd(patom(a), {(): 1}))
+                    if padd(padd(nxt, st, -1), width, -1) and not mut_atoms:
                         stride_ok = False
-                        detail = "offset advances by a different amount than the width of the slices handed down"
+                        detail = "consecutive iterations slice at distance %s but hand down width %s" % (
+                            pshow(padd(nxt, st, -1)), pshow(width))
         if not stride_ok:
             rep.violation(R, key + "/stride", "%s: %s — components overlap or are skipped" % (name, detail), facts.loc(p))
         else:
